@@ -51,6 +51,7 @@ func c02Program(r gen.R) (*sl.Program, []string, map[int]string) {
 			}
 			if gen.Chance(r, 0.5) {
 				rule.Status = gen.Pick(r, []int{401, 403, 404, 500, 301, 302, 307})
+				rule.StatusLast = gen.Chance(r, 0.5)
 			}
 			if gen.Chance(r, 0.2) {
 				// chain: the starter's disruptive action must fire only when the link matches
